@@ -18,7 +18,10 @@ CheckEnc(e) ==
        le_tvec |-> Eq(e, "le_tvec", a), be_tvec |-> Eq(e, "be_tvec", Rev(a)),
        rt_le |-> Eq(e, "rt_le", a), rt_be |-> Eq(e, "rt_be", a),
        rt_les |-> Eq(e, "rt_les", a), rt_bes |-> Eq(e, "rt_bes", a),
-       rt_let |-> Eq(e, "rt_let", Some(a)), rt_bet |-> Eq(e, "rt_bet", Some(a)) ]
+       rt_let |-> Eq(e, "rt_let", Some(a)), rt_bet |-> Eq(e, "rt_bet", Some(a)),
+       \* array forms whose size parameter is not BYTES must panic ("fixed-size arrays ... in the stated ... length")
+       wrong_size |-> \A f \in {"ws_to_le3", "ws_to_be3", "ws_to_le7", "ws_to_be7", "ws_to_le31", "ws_to_be31", "ws_to_be600",
+                                 "ws_from_le3", "ws_from_be3", "ws_from_le31", "ws_from_be7"} : Panics(e, f) ]
 
 \* copy into a buffer of e.len bytes pre-filled with e.pat
 CheckCopy(e) ==
